@@ -219,7 +219,7 @@ EXTRA = {
     'C03': ' The walker also reports boxes whose syntax (version / flags) needs more bytes than the box has. A server error in place of a stored segment requested by its own number / time is a violation (large segments included).',
     'C05': ' Young streams at sub-second instants, a multi-period stream with a clear-only subtitle track under DRM selections, two dubs '
            'on one track id, hostile strings with "$"; the document with the hostile strings is itself validated.',
-    'C06': ' A stream stored with top-level free padding (after moov, between fragments, at the end of the file). The padded stream also has a free box before ftyp.',
+    'C06': ' A stream stored with top-level free padding (after moov, between fragments, at the end of the file). The padded stream also has a free box before ftyp. A stream stored without sidx boxes (styp + moof + mdat per fragment; one known finding, see X03 in DESIGN.md).',
     'C07': ' Where the text given has a reading of its own (integer literals) that reading must reach the media endpoint; time-of-day '
            'error positions must name the segment that contains the instant; text-valued options round-trip starting from the value. A second stream with option defaults of its own (spec/OptionLayers.tla): values left out, equal to the global default, equal to the stream default, other.',
     'C08': ' The timing reference varies per option group (incl. durations whose double is not a whole number of seconds); thorough: '
